@@ -278,6 +278,38 @@ pub fn call_templates() -> Vec<Vec<Stmt>> {
         ] }),
         Stmt::Expr(Expr::Array(vec![call("fib", vec![Expr::Int(7)]), call("fib", vec![Expr::Int(1)]), call("fib", vec![Expr::Int(9)])])),
     ]);
+    // many parameters: 16, and the largest argument counts the call instruction can carry (254, 255)
+    for np in [16usize, 254, 255] {
+        let params: Vec<String> = (0..np).map(|i| format!("p{i}")).collect();
+        // the body uses the first, a middle and the last parameter, and two locals of its own
+        let body = vec![
+            Stmt::Let("l0".into(), infix("+", id("p0"), Expr::Int(1))),
+            Stmt::Let("l1".into(), infix("+", id(&format!("p{}", np - 1)), Expr::Int(2))),
+            Stmt::Expr(Expr::Array(vec![id("p0"), id(&format!("p{}", np / 2)), id(&format!("p{}", np - 1)), id("l0"), id("l1")])),
+        ];
+        let f = Stmt::Expr(Expr::Func { name: "veel".into(), params, body });
+        let args: Vec<Expr> = (0..np).map(|i| Expr::Int(1000 + i as i64)).collect();
+        out.push(vec![f.clone(), Stmt::Let("voor".into(), Expr::Int(7)),
+            Stmt::Let("r".into(), call("veel", args.clone())),
+            Stmt::Expr(Expr::Array(vec![id("voor"), call("veel", args.clone()), infix("+", Expr::Int(1), Expr::Index(b(id("r")), b(Expr::Int(2)))), id("voor")]))]);
+    }
+    // a function body whose last statement is a chain of `als` without a final `anders`, every branch leaving
+    // with `antwoord`: when no branch is taken the function ends there and its value is null
+    for shape in 0..3 {
+        let ret = |v: i64| vec![Stmt::Return(Expr::Int(v))];
+        let chain = match shape {
+            0 => Expr::If { c: b(infix("<", id("n"), Expr::Int(0))), th: ret(-1), el: None },
+            1 => Expr::If { c: b(infix("<", id("n"), Expr::Int(0))), th: ret(-1), el: Some(vec![Stmt::Expr(
+                    Expr::If { c: b(infix("==", id("n"), Expr::Int(0))), th: ret(0), el: None })]) },
+            _ => Expr::If { c: b(infix("<", id("n"), Expr::Int(0))), th: vec![Stmt::Let("t".into(), Expr::Int(5)), Stmt::Return(id("t"))], el: Some(vec![Stmt::Expr(
+                    Expr::If { c: b(infix("==", id("n"), Expr::Int(0))), th: ret(0), el: Some(vec![Stmt::Expr(
+                        Expr::If { c: b(infix("==", id("n"), Expr::Int(1))), th: ret(1), el: None })]) })]) },
+        };
+        let f = Stmt::Expr(Expr::Func { name: "teken".into(), params: vec!["n".into()], body: vec![Stmt::Let("k".into(), infix("*", id("n"), Expr::Int(2))), Stmt::Expr(chain)] });
+        out.push(vec![f.clone(), Stmt::Let("voor".into(), Expr::Int(100)),
+            Stmt::Expr(call("print", vec![Expr::Str("{} {} {} {}".into()), call("teken", vec![Expr::Int(-3)]), call("teken", vec![Expr::Int(0)]), call("teken", vec![Expr::Int(1)]), call("teken", vec![Expr::Int(9)])])),
+            Stmt::Expr(Expr::Array(vec![id("voor"), call("teken", vec![Expr::Int(7)]), id("voor")]))]);
+    }
     // a name declared with `functie` is an ordinary variable: a call site reads it when the call happens,
     // so re-binding the name changes what call sites compiled earlier call
     {
